@@ -122,6 +122,15 @@ def _defaultdict(I, a, k):
     return d
 
 
+def _chainmap(I, a, k):
+    """collections.ChainMap(m1, m2, ...): modelled as the merged dict with earlier maps taking precedence (valid as long
+    as the maps are not mutated between construction and use; assumption stated in the contracts that rely on it)"""
+    out = {}
+    for m in reversed(a):
+        out.update(m)
+    return out
+
+
 def _chain(I, a, k):
     from .interp import _ListIter
     out = []
@@ -257,6 +266,7 @@ STD = {
     "collections.OrderedDict": _ordereddict,
     "collections.defaultdict": _defaultdict,
     "itertools.chain": _chain,
+    "collections.ChainMap": _chainmap,
     "itertools.chain.from_iterable": _chain_from_iterable,
     "itertools.count": _count,
     "itertools.repeat": _repeat,
